@@ -5,11 +5,17 @@ import json, os, shutil, subprocess, sys, glob
 args = [a for a in sys.argv[1:] if a != '--numpy']
 numpy = '--numpy' in sys.argv
 pid, work, dest, summary, needs = args[:5]
+if summary == '@':   # the sub-agent wrote its own two-sentence description
+    import json as _j
+    _m = _j.load(open(os.path.join(work, 'meta.json')))
+    summary, needs = str(_m.get('summary', ''))[:400], str(_m.get('needs_to_manifest', ''))[:400]
 checks = args[5:] or [pid]
 VERIF = os.path.dirname(os.path.dirname(os.path.abspath(__file__)))
 d = os.path.join(VERIF, 'seeded', dest)
 os.makedirs(d, exist_ok=True)
 for fn in glob.glob(os.path.join(work, '*')):
+    if os.path.basename(fn) == 'meta.json':
+        continue
     if os.path.isfile(fn) and (fn.endswith(('.py', '.md', '.diff')) ) and os.path.getsize(fn) < 400_000:
         shutil.copy(fn, d)
 json.dump({'property': pid, 'summary': summary, 'needs_to_manifest': needs,
